@@ -1,0 +1,18 @@
+//go:build verif
+
+package shard
+
+import "github.com/semafind/semadb/diskstore"
+
+// VerifWrapStore replaces the shard's storage handle by wrap(current handle).
+// Only compiled with the verif build tag; used by the verification harnesses
+// to install a fault / crash / scheduling proxy around the disk store.
+func (s *Shard) VerifWrapStore(wrap func(diskstore.DiskStore) diskstore.DiskStore) {
+	s.db = wrap(s.db)
+}
+
+// VerifStore returns the shard's storage handle so that a harness can dump the
+// buckets of a live shard.
+func (s *Shard) VerifStore() diskstore.DiskStore {
+	return s.db
+}
